@@ -147,6 +147,13 @@ static void next_lookup(struct addr_query *aquery)
           end_aquery(aquery, status, host);
           return;
         }
+        /* Running out of memory while consulting the hosts file is not the
+         * same as the address not being listed there, don't go on and answer
+         * from a lower-priority source instead. */
+        if (status == ARES_ENOMEM) {
+          end_aquery(aquery, ARES_ENOMEM, NULL);
+          return;
+        }
         break;
       default:
         break;
